@@ -5,7 +5,8 @@
 (*  {"hier", "leaf", "named", "foreign": [keys],                           *)
 (*   "events": [{"key", "clobber", "ok", "json": [[entry..]..] (per cell), *)
 (*               "base_same": bool, "foreign_same": bool,                  *)
-(*               "keys": [..], "views": [[key, ids_ok, [[row entry..]..]]]}]}*)
+(*               "keys": [..], "views": [[key, ids_ok, [[row entry..]..]]], *)
+(*               "tr": {transcription of the run into a new file}}]}       *)
 (* Clause numbers 21xx (store) and 154x (view).                            *)
 (***************************************************************************)
 EXTENDS Outputs, TLC, Json, IOUtils
@@ -41,6 +42,22 @@ ViewErr(t, e, o) ==
                 ELSE {ObsmErr(Entries(js[c]), ORow(v[3][c]), t.hier, t.leaf, NameF, AliasF) : c \in 1..Len(js)}
             : i \in 1..Len(e.views)} \ {0}
     IN IF errs = {} THEN 0 ELSE CHOOSE x \in errs : \A y \in errs : x <= y
+\* transcribe_to_obs after the run: the result copied into the obs table of a NEW file
+\*   e.tr = [done, ok, ids_ok, rows, rest_same, again_refused, again_clobber_ok, dup_refused]
+TrErr(t, e) ==
+    LET NameF(lev, a) == IF t.named THEN 1000 + a ELSE a
+        AliasF(lev, a) == IF t.named THEN 2000 + a ELSE a
+    IN
+    IF ~e.tr.done THEN 0
+    ELSE IF ~e.tr.ok THEN 2110                                             \* a successful run could not be transcribed
+    ELSE IF ~e.tr.ids_ok THEN 2107
+    ELSE IF Len(e.tr.rows) # Len(e.json) THEN 2108
+    ELSE LET errs == {ObsmErr(Entries(e.json[c]), ORow(e.tr.rows[c]), t.hier, t.leaf, NameF, AliasF)
+                         : c \in 1..Len(e.json)} \ {0} IN
+         IF errs # {} THEN CHOOSE x \in errs : \A y \in errs : x <= y       \* the obs view is not the JSON result (154x)
+         ELSE IF ~e.tr.rest_same THEN 2112                                 \* X / var / uns / obsm / old obs columns differ
+         ELSE IF ~(e.tr.again_refused /\ e.tr.again_clobber_ok /\ e.tr.dup_refused) THEN 2113   \* overwrite rules
+         ELSE 0
 StepErr(t, e, o, r) ==
     LET o2 == NextOwners(o, e, r) IN
     IF ~(e.ok = Expected(o, e)) THEN 2101                                  \* succeeded / failed against the rule
@@ -48,7 +65,8 @@ StepErr(t, e, o, r) ==
     ELSE IF ~e.foreign_same THEN 2104                                      \* an obsm entry nobody named changed
     ELSE IF ~(Rng(e.keys) = DOMAIN o2) THEN 2102                           \* keys present differ
     ELSE IF ~(\A i \in 1..Len(e.views) : e.views[i][1] \in DOMAIN o2) THEN 2102
-    ELSE ViewErr(t, e, o2)
+    ELSE IF ViewErr(t, e, o2) # 0 THEN ViewErr(t, e, o2)
+    ELSE TrErr(t, e)
 Step == /\ l <= Len(Traces[tid].events)
         /\ LET t == Traces[tid] e == t.events[l] c == StepErr(t, e, owners, l) IN
            IF c = 0 THEN owners' = NextOwners(owners, e, l) /\ l' = l + 1 /\ UNCHANGED tid
